@@ -46,6 +46,7 @@ void vs_sleep_ms(double ms);
 uint64_t vs_now_ns(void);
 int vs_self(void);
 int vs_active(void);
+int vs_blocked_on_cond(int tid);      // is that thread asleep on a condition variable right now
 int vs_live_threads(void);            // controlled threads other than the caller that have not finished
 int vs_thread_count(void);            // controlled threads created so far (the next one gets this id)
 unsigned vs_sleeps_of(int tid);        // completed or pending virtual sleeps of a thread
